@@ -1,8 +1,8 @@
 (* C05: goal items.  A goal literal is checked like a fact; a numeric goal is accepted by the model (repaired
    configuration) exactly when every fluent in it is a declared function applied to the declared NUMBER of
-   arguments -- their declaredness and types are NOT checked (finding D19d) -- and the stored tree is the
-   condition with repeated fluent arguments collapsed (finding D07). *)
-From Coq Require Import List Ascii String Bool Arith Lia PrimFloat.
+   pairwise DISTINCT arguments -- their declaredness and types are NOT checked (finding D19d), and a repeated
+   argument is refused although legal PDDL (finding D07) -- and the stored tree is the condition as written. *)
+From Coq Require Import List Ascii String Bool Arith Lia PrimFloat Btauto.
 From Verif Require Import Base.Result Base.Str Base.Sexp Base.PyDict
   Model.Types Model.Domain Model.NumExpr Model.Problem Model.ProblemObs
   Spec.Pddl Spec.Grammar Spec.Problem Proofs.C05_Lemmas Proofs.C05_Items.
@@ -14,9 +14,31 @@ Open Scope list_scope.
 Fixpoint tree_of_nexp (n : nexp) : ntree :=
   match n with
   | Pddl.NNum x => NumExpr.NNum x
-  | Pddl.NFl f args => NumExpr.NFl {| nf_name := f; nf_params := distinct args |}
+  | Pddl.NFl f args => NumExpr.NFl {| nf_name := f; nf_params := args |}
   | Pddl.NBin o a b => NumExpr.NBin (binop_name o) (tree_of_nexp a) (tree_of_nexp b)
   end.
+
+Fixpoint nexp_nodup (n : nexp) : bool :=
+  match n with
+  | Pddl.NNum _ => true
+  | Pddl.NFl _ args => negb (has_dup_name args)
+  | Pddl.NBin _ a b => nexp_nodup a && nexp_nodup b
+  end.
+
+Lemma has_dup_has_dup_name l : has_dup l = has_dup_name l.
+Proof. induction l as [|x xs IH]; simpl; [reflexivity|]. rewrite IH. reflexivity. Qed.
+
+Lemma dedup_keys_nodup l : forall seen, NoDup l -> (forall x, In x l -> ~ In x seen) -> NumExpr.dedup_keys seen l = l.
+Proof.
+  induction l as [|x xs IH]; intros seen Hnd Hdis; simpl; [reflexivity|].
+  destruct (str_in x seen) eqn:E.
+  - apply str_in_In in E. exfalso. apply (Hdis x); [left; reflexivity | exact E].
+  - f_equal. inversion Hnd as [|? ? Hnx Hnd']; subst. apply IH; [exact Hnd'|].
+    intros y Hy [Hyx|Hys]; [subst; contradiction | apply (Hdis y); [right; exact Hy | exact Hys]].
+Qed.
+
+Lemma distinct_nodup l : NoDup l -> distinct l = l.
+Proof. intros H. apply dedup_keys_nodup; [exact H | intros ? _ []]. Qed.
 
 Section Shape.
   Variable funcs : list (string * list (string * string)).
@@ -36,8 +58,10 @@ Section Shape.
     | Pddl.NBin _ a b => declared_all a && declared_all b
     end.
 
-  (* what the code checks of a numeric expression: declared functions, right number of arguments *)
+  (* declared functions, right number of arguments *)
   Definition shape_ok (n : nexp) : bool := arity_okb n && declared_all n.
+  (* what the code checks of a numeric expression: that, and no repeated argument *)
+  Definition code_ok (n : nexp) : bool := shape_ok n && nexp_nodup n.
 End Shape.
 
 Lemma read_binop_facts h o : read_binop h = Some o ->
@@ -112,34 +136,37 @@ Section GoalItems.
   Lemma flat_fluent h names : str_in h keywords = false ->
     goal_arity_ok dom (SList (Atom h :: map Atom names)) = arity_okb funcs (Pddl.NFl h names) /\
     (arity_okb funcs (Pddl.NFl h names) = true ->
-     res_rel (NumExpr.construct true num (funcs_keys dom) (SList (Atom h :: map Atom names)))
-             (if declared_all funcs (Pddl.NFl h names) then Some (tree_of_nexp (Pddl.NFl h names)) else None)).
+     res_rel (pconstruct true num (funcs_keys dom) (SList (Atom h :: map Atom names)))
+             (if declared_all funcs (Pddl.NFl h names) && nexp_nodup (Pddl.NFl h names)
+              then Some (tree_of_nexp (Pddl.NFl h names)) else None)).
   Proof.
     intros Hk. unfold name in *.
     assert (Hall : NumExpr.all_atoms (Atom h :: map Atom names) = Some (h :: names)).
     { cbn [NumExpr.all_atoms]. rewrite all_atoms_map. reflexivity. }
     split.
     - cbn [goal_arity_ok]. rewrite Hall. cbn [arity_okb]. rewrite <- dget_lookup. reflexivity.
-    - cbn [arity_okb declared_all tree_of_nexp]. rewrite <- !dget_lookup. intros Har.
-      cbn [NumExpr.construct]. rewrite Hall. cbn [construct_flat].
+    - cbn [arity_okb declared_all tree_of_nexp nexp_nodup]. rewrite <- !dget_lookup. intros Har.
+      cbn [pconstruct]. rewrite Hall. cbn [pconstruct_flat].
       rewrite (not_keyword_not_operator h Hk). rewrite alookup_funcs_keys.
       unfold signature, pydict, name in *.
       match goal with |- context [@dget ?V ?d h] => destruct (@dget V d h) as [sg|] end; [|raises EKey].
-      apply Nat.eqb_eq in Har. unfold res_rel. destruct names as [|a ar].
+      unfold dkeys. rewrite map_length, Har. cbn [negb orb andb]. rewrite has_dup_has_dup_name.
+      destruct (has_dup_name names) eqn:Ed; cbn [negb]; [raises EValue|].
+      apply Nat.eqb_eq in Har. apply has_dup_name_NoDup in Ed. unfold res_rel. destruct names as [|a ar].
       + destruct sg; [reflexivity | discriminate].
-      + unfold dkeys. rewrite map_length, <- Har, firstn_all. reflexivity.
+      + rewrite <- Har, firstn_all. fold (distinct (a :: ar)). rewrite distinct_nodup by exact Ed. reflexivity.
   Qed.
 
   (* every expression of the grammar *)
   Lemma construct_read e : forall x, read_nexp num e = Some x ->
     goal_arity_ok dom e = arity_okb funcs x /\
     (arity_okb funcs x = true ->
-     res_rel (NumExpr.construct true num (funcs_keys dom) e)
-             (if declared_all funcs x then Some (tree_of_nexp x) else None)).
+     res_rel (pconstruct true num (funcs_keys dom) e)
+             (if declared_all funcs x && nexp_nodup x then Some (tree_of_nexp x) else None)).
   Proof.
     induction e as [s|l IH] using sexp_ind'; intros x Hx.
     - cbn [read_nexp] in Hx. destruct (num s) as [xv|] eqn:En; [|discriminate]. injection Hx as <-.
-      split; [reflexivity|]. intros _. cbn [NumExpr.construct declared_all tree_of_nexp]. unfold construct_atom.
+      split; [reflexivity|]. intros _. cbn [pconstruct declared_all nexp_nodup tree_of_nexp andb]. unfold construct_atom.
       destruct (str_in s LEGAL_NUMERICAL_EXPRESSIONS) eqn:El; [rewrite (Hnum s El) in En; discriminate|].
       rewrite En. reflexivity.
     - destruct l as [|[h|] t]; [discriminate | | discriminate].
@@ -147,8 +174,8 @@ Section GoalItems.
       assert (Hflat : forall names, str_in h keywords = false -> atom_names t = Some names -> x = Pddl.NFl h names ->
                 goal_arity_ok dom (SList (Atom h :: t)) = arity_okb funcs x /\
                 (arity_okb funcs x = true ->
-                 res_rel (NumExpr.construct true num (funcs_keys dom) (SList (Atom h :: t)))
-                         (if declared_all funcs x then Some (tree_of_nexp x) else None))).
+                 res_rel (pconstruct true num (funcs_keys dom) (SList (Atom h :: t)))
+                         (if declared_all funcs x && nexp_nodup x then Some (tree_of_nexp x) else None))).
       { intros names Hk Hn ->. apply atom_names_map in Hn. subst t. apply flat_fluent. exact Hk. }
       cbn [read_nexp] in Hx.
       destruct t as [|a [|b [|c t']]].
@@ -178,17 +205,19 @@ Section GoalItems.
                 assert (Hin : In (binop_name o) (dkeys funcs)).
                 { apply dmem_In. unfold dmem. rewrite Ed. reflexivity. }
                 rewrite (Hf _ Hin) in Hkw. discriminate.
-             ++ intros _. cbn [NumExpr.construct NumExpr.all_atoms construct_flat List.length Nat.eqb negb andb].
-                rewrite Hop, Ena, Enb. reflexivity.
+             ++ intros _. cbn [pconstruct NumExpr.all_atoms pconstruct_flat]. rewrite Hop.
+                cbn [construct_flat List.length Nat.eqb negb andb]. rewrite Hop, Ena, Enb. reflexivity.
           -- split.
              ++ rewrite goal_arity_nonflat by exact Hall. cbn [tl forallb arity_okb]. rewrite Haa, Hba, andb_true_r. reflexivity.
-             ++ cbn [arity_okb declared_all tree_of_nexp]. intros Har. apply andb_true_iff in Har. destruct Har as [Har1 Har2].
-                cbn [NumExpr.construct]. rewrite Hall. cbn [List.length Nat.eqb negb andb].
+             ++ cbn [arity_okb declared_all nexp_nodup tree_of_nexp]. intros Har. apply andb_true_iff in Har. destruct Har as [Har1 Har2].
+                cbn [pconstruct]. rewrite Hall. cbn [List.length Nat.eqb negb andb].
                 specialize (Hac Har1). specialize (Hbc Har2).
-                destruct (declared_all funcs xa); cbn [andb].
-                ** simpl in Hac. rewrite Hac. cbn [bind].
-                   destruct (declared_all funcs xb).
-                   --- simpl in Hbc. rewrite Hbc. reflexivity.
+                replace (declared_all funcs xa && declared_all funcs xb && (nexp_nodup xa && nexp_nodup xb))
+                  with ((declared_all funcs xa && nexp_nodup xa) && (declared_all funcs xb && nexp_nodup xb)) by btauto.
+                destruct (declared_all funcs xa && nexp_nodup xa); cbn [andb].
+                ** unfold res_rel in Hac. rewrite Hac. cbn [bind].
+                   destruct (declared_all funcs xb && nexp_nodup xb).
+                   --- unfold res_rel in Hbc. rewrite Hbc. reflexivity.
                    --- destruct Hbc as [k Hbc]. rewrite Hbc. exists k. reflexivity.
                 ** destruct Hac as [k Hac]. rewrite Hac. exists k. reflexivity.
         * destruct (str_in h keywords) eqn:Hk; [discriminate|].
@@ -207,7 +236,7 @@ Section GoalItems.
         if atom_ok v (v_preds v) (pb_objects pb) (p, args)
         then Some (with_goal pb (pb_goal pb ++ [(p, args)]) (pb_goal_num pb)) else None
     | inr (c, l, r) =>
-        if shape_ok funcs l && shape_ok funcs r
+        if code_ok funcs l && code_ok funcs r
         then Some (with_goal pb (pb_goal pb) (pb_goal_num pb ++ [goal_tree (c, l, r)])) else None
     end.
 
@@ -224,20 +253,20 @@ Section GoalItems.
       destruct (read_nexp num l) as [x|] eqn:El; [|discriminate].
       destruct (read_nexp num r) as [y|] eqn:Er; [|discriminate].
       intros H. injection H as <-.
-      rewrite andb_false_r. cbn [negb fix_goal_arity cfg_fixed andb].
+      rewrite andb_false_r. cbn [negb fix_goal_arity fix_apps cfg_fixed andb].
       destruct (construct_read l x El) as [Hla Hlc]. destruct (construct_read r y Er) as [Hra Hrc].
       assert (Hall : NumExpr.all_atoms [Atom h; l; r] = None).
       { destruct l as [sl|]; [destruct r as [sr|]; [discriminate Eat | reflexivity] | reflexivity]. }
       rewrite goal_arity_nonflat by exact Hall. cbn [tl forallb]. rewrite Hla, Hra, andb_true_r.
-      cbn [step_goal]. unfold shape_ok.
+      cbn [step_goal]. unfold code_ok, shape_ok.
       destruct (arity_okb funcs x) eqn:Eax; cbn [andb negb]; [|raises EValue].
       destruct (arity_okb funcs y) eqn:Eay; cbn [andb negb].
-      2:{ rewrite andb_false_r. raises EValue. }
-      cbn [NumExpr.construct]. rewrite Hall. cbn [List.length Nat.eqb negb andb].
+      2:{ rewrite !andb_false_r. raises EValue. }
+      cbn [pconstruct]. rewrite Hall. cbn [List.length Nat.eqb negb andb].
       specialize (Hlc eq_refl). specialize (Hrc eq_refl).
-      destruct (declared_all funcs x); cbn [andb].
-      + simpl in Hlc. rewrite Hlc. cbn [bind]. destruct (declared_all funcs y).
-        * simpl in Hrc. rewrite Hrc. cbn [bind]. rewrite (read_cmpop_name h c Ec). reflexivity.
+      destruct (declared_all funcs x && nexp_nodup x); cbn [andb].
+      + unfold res_rel in Hlc. rewrite Hlc. cbn [bind]. destruct (declared_all funcs y && nexp_nodup y).
+        * unfold res_rel in Hrc. rewrite Hrc. cbn [bind]. rewrite (read_cmpop_name h c Ec). reflexivity.
         * destruct Hrc as [k Hrc]. rewrite Hrc. exists k. reflexivity.
       + destruct Hlc as [k Hlc]. rewrite Hlc. exists k. reflexivity.
     - (* a literal *)
